@@ -20,7 +20,7 @@ func (e *Engine) lemmaObligations(prop string) []*Obligation {
 		}
 		var sb strings.Builder
 		sb.WriteString("(set-logic ALL)\n")
-		for _, s := range e.cs.Specs {
+		for _, s := range e.cs.specsFor(l.Text) {
 			sb.WriteString(s + "\n")
 		}
 		sb.WriteString(l.Text)
